@@ -90,7 +90,12 @@ fn normalized_first_escaped_char(input: Span) -> PResult<String> {
     let (rest, c) = escaped_char(input)?;
     let result = if c.is_alphabetic() || u32::from(c) >= 0xa1 {
         format!("{c}")
-    } else if !c.is_control() && !c.is_numeric() && c != '\n' && c != '\t' {
+    } else if !c.is_control()
+        && !c.is_numeric()
+        && c != '\n'
+        && c != '\t'
+        && c != '\u{a0}'
+    {
         format!("\\{c}")
     } else {
         format!("\\{:x} ", u32::from(c))
@@ -101,7 +106,8 @@ fn normalized_escaped_char(input: Span) -> PResult<String> {
     let (rest, c) = escaped_char(input)?;
     let result = if c.is_alphanumeric() || c == '-' || u32::from(c) >= 0xa1 {
         format!("{c}")
-    } else if !c.is_control() && c != '\n' && c != '\t' {
+    } else if !c.is_control() && c != '\n' && c != '\t' && c != '\u{a0}'
+    {
         format!("\\{c}")
     } else {
         format!("\\{:x} ", u32::from(c))
